@@ -5,6 +5,7 @@ package checks
 import (
 	"strings"
 	"sync"
+	"syscall"
 	"time"
 
 	"github.com/ansible/receptor/pkg/verifhook"
@@ -60,11 +61,16 @@ func installYields(seed uint64, p float64, kinds ...string) func() {
 	}
 	verifhook.SetYieldHandler(func(kind, key string) {
 		yieldMu.Lock()
-		yieldLog = append(yieldLog, yieldVisit{kind, key, time.Now()})
+		if kind != "lock" {
+			yieldLog = append(yieldLog, yieldVisit{kind, key, time.Now()})
+		}
 		act := yieldAct[kind]
 		yieldMu.Unlock()
 		if act != nil {
 			act(key)
+		}
+		if kind == "lock" {
+			return // never a simulated-time pause at a lock site
 		}
 		if len(want) > 0 && !want[kind] {
 			return
@@ -88,4 +94,26 @@ func installYields(seed uint64, p float64, kinds ...string) func() {
 		time.Sleep(d)
 	})
 	return func() { verifhook.SetYieldHandler(nil) }
+}
+
+// installLockNoise holds goroutines back, in real time, at the yield points the build inserts before every
+// Lock()/RLock() of the network package: with probability p (a hash of seed, site and visit number) the goroutine
+// pauses 50-400 us before taking the lock.  Real time, never simulated time - the goroutine may already hold
+// another lock, and a goroutine sleeping on the simulated clock with a lock held would stop the clock for good.
+// It widens, inside one instant of simulated time, the windows between a goroutine's lock acquisitions.
+func installLockNoise(seed uint64, p float64) func() {
+	var mu sync.Mutex
+	visits := map[string]int{}
+	setYieldAction("lock", func(site string) {
+		mu.Lock()
+		visits[site]++
+		n := visits[site]
+		mu.Unlock()
+		if simnet.Unit(simnet.H(seed, "locknoise", site, n)) >= p {
+			return
+		}
+		ts := syscall.Timespec{Nsec: int64(50_000 + simnet.H(seed, "locknoise-d", site, n)%350_000)}
+		_ = syscall.Nanosleep(&ts, nil)
+	})
+	return func() { setYieldAction("lock", nil) }
 }
